@@ -382,6 +382,11 @@ def jobs(tier):
         for r in range(N + 1):
             for which in ('measure_own_stabilizers', 'measure_state_argument', 'transform_by_own_map'):
                 J.append(dict(harness=('c17', 'h_alias_ops'), params=dict(N=N, which=which, r=r), timeout_s=300, cost=10))
+    if tier == 'thorough':
+        for kind in ('Pauli', 'PauliList', 'PauliMonomial', 'PauliPolynomial', 'StabilizerState1'):
+            J.append(dict(harness=('c17', 'h_copy'), params=dict(N=3, kind=kind), timeout_s=600))
+        for name in ('expect_list', 'entropy', 'sample', 'to_map', 'tokenize_state', 'matmul', 'neg', 'rmul', 'tokenize', 'trace', 'weight', 'getitem', 'rotate_by', 'measure', 'diagonalize_pauli'):
+            J.append(dict(harness=('c17', 'h_query'), params=dict(N=3, name=name), timeout_s=900, cost=60, max_paths=8000))
     for kind in ('Pauli', 'PauliList', 'CliffordMap', 'StabilizerState', 'StabilizerState1'):
         J.append(dict(harness=('c17', 'h_repr'), params=dict(N=1, kind=kind), max_paths=5000))
     from .c09 import tuples
